@@ -633,7 +633,9 @@ mod api {
         // keys of data/synthetic_layout.json: t=ক w=্ i=ত p=া o=ঁ e=ি d=ে c=ু u=র a=আ s=য v=ই x=। m=ো b=.
         let words = ["t", "tp", "api", "tc", "utc", "twi", "ap", "tpt", "\"tp\"", "(ap)", "tpx", "we", "dtp", "tcx", "apitpu", "'tcu'", "tw", "apiw", "tptw", "sw", "apsw",
                      // punctuation that is special in a regular expression INSIDE the word (b = full stop, ? + ( ^ from their own keys)
-                     "tbp", "tpbu", "t?p", "t+p", "t(p", "tp^u", "btp"];
+                     "tbp", "tpbu", "t?p", "t+p", "t(p", "tp^u", "btp",
+                     // a quotation mark that other punctuation separates from the word is curled like one next to it
+                     "tp!\"", "\"(tp)\"", "tpx'", "'(\"tp\")'"];
         let mut idx = 0usize;
         for trad in [false, true] { for smart in [false, true] { for eng in [false, true] { for ansi in [false, true] {
             let cfgv = fixed_cfg(json!({"fixed_suggestion": true, "fixed_kar": trad, "smart_quote": smart, "include_english": eng, "ansi": ansi, "fixed_vowel": true}));
@@ -709,6 +711,34 @@ mod api {
                 o.nontrivial += 1;
             }
         }
+        // keys that emit nothing, pressed while idle -- a key-pad key the layout leaves unassigned ("Num2": ""), key-pad Enter, a
+        // key-pad digit with the key pad option off: an empty suggestion, no session, and the next word is answered as in a new
+        // context (no raw key of theirs in the English candidate / the emoticon look-up) (C06, C15, C18)
+        if shard == 0 {
+            for numpad in [true, false] {
+                let cfgv = fixed_cfg(json!({"fixed_suggestion": true, "include_english": true, "fixed_vowel": true, "fixed_numpad": numpad}));
+                for next in ["tp", ";)", "api"] {
+                    o.cases += 1;
+                    let mut s = Sess::new(cfgv.clone());
+                    let mut bad = false;
+                    // VC_KP_2 (unassigned in the synthetic layout), VC_KP_ENTER
+                    for code in [0x0050u16, 0x0E1C] {
+                        let e = s.code_mod(code, 0, 0);
+                        if !e.is_empty() || s.ctx.ongoing_input_session() { o.fail(json!({"clause": "C06 a key that emits nothing, pressed while idle, returns an empty suggestion and starts no session", "history": s.history(), "observed": show(&e)})); bad = true; break; }
+                        let b = s.bs(false);
+                        if !b.is_empty() { o.fail(json!({"clause": "C06 a backspace when idle returns an empty suggestion", "history": s.history(), "observed": show(&b)})); bad = true; break; }
+                    }
+                    if bad { continue; }
+                    let sg = s.typ(next).unwrap();
+                    let mut fresh = Sess::new(cfgv.clone());
+                    let want = fresh.typ(next).unwrap();
+                    if show(&sg) != show(&want) {
+                        o.fail(json!({"clause": "C06 C15 C18 after keys that emit nothing (pressed while idle) the next word is answered as in a new context", "history": s.history(), "observed": show(&sg), "expected": show(&want)}));
+                    }
+                    o.nontrivial += 1;
+                }
+            }
+        }
         // old vowel-sign order with list suggestions on: after EVERY key the first candidate and the auxiliary text are the text
         // composed so far (same keys in a context with list suggestions off), also when a key rewrites a sign in place (ে + া -> ো)
         if shard == 0 {
@@ -772,8 +802,19 @@ mod api {
                 let mut last = None;
                 let mut sel = 0u8;
                 for c in t.chars() {
-                    let _ = det.key('x', 0); let _ = det.bs(false);
+                    let _ = det.key('x', 0);
+                    let after_bs = det.bs(false);
+                    // a published key that types nothing (key pad Enter) leaves the composition as it is: the suggestion it returns is
+                    // the one of the surviving text -- after a backspace as well as after a key (C03, C05, C02)
+                    let noop = det.code_mod(0x0E1C, 0, sel);
+                    if texts(&noop) != texts(&after_bs) || (!noop.is_lonely() && !after_bs.is_lonely() && noop.get_auxiliary_text() != after_bs.get_auxiliary_text()) {
+                        o.fail(json!({"clause": "C03 C05 C02 a key that types nothing returns the suggestion of the surviving text (after a backspace)", "history": det.history(), "observed": show(&noop), "expected": show(&after_bs)}));
+                    }
                     let s1 = det.key(c, sel);
+                    let noop = det.code_mod(0x0E1C, 0, sel);
+                    if texts(&noop) != texts(&s1) || (!noop.is_lonely() && !s1.is_lonely() && noop.get_auxiliary_text() != s1.get_auxiliary_text()) {
+                        o.fail(json!({"clause": "C03 C05 C02 a key that types nothing returns the suggestion of the surviving text (after a key)", "history": det.history(), "observed": show(&noop), "expected": show(&s1)}));
+                    }
                     if !s1.is_lonely() { sel = s1.previously_selected_index() as u8; }
                     last = Some(s1);
                 }
@@ -969,6 +1010,33 @@ mod api {
                 o.nontrivial += 1;
             }
         }
+        // the list the host commits from is the one of the MOST RECENT event, also when that event was a backspace that made the list
+        // longer than the one of the last key ("seshh" has fewer candidates than "sesh"): committing its last row is learned (C09)
+        for (long, n_bs) in [("seshh", 1usize), ("(onnoy", 1), ("kothax", 1)] {
+            o.cases += 1;
+            crate::verif_driver::reset_user_files();
+            let cfgv = phon_cfg(json!({}));
+            let mut s = Sess::new(cfgv.clone());
+            let before = s.typ(long).unwrap();
+            let mut b = s.bs(false);
+            for _ in 1..n_bs { b = s.bs(false); }
+            if b.is_lonely() || b.len() < 2 { s.finish(); continue; }
+            let last = b.len() - 1;
+            let text = b.get_suggestions()[last].clone();
+            let longer = before.is_lonely() || b.len() > before.len();
+            s.commit(last);
+            let short: String = long.chars().take(long.chars().count() - n_bs).collect();
+            let again = s.typ(&short).unwrap(); s.finish();
+            if again.get_suggestions().get(again.previously_selected_index()) != Some(&text) {
+                o.fail(json!({"clause": "C09 a candidate committed from the list a backspace returned is learned (same context)", "history": s.history(), "observed": show(&again), "expected": text, "list_got_longer": longer}));
+            }
+            let mut fresh = Sess::new(cfgv.clone());
+            let a = fresh.typ(&short).unwrap(); fresh.finish();
+            if a.get_suggestions().get(a.previously_selected_index()) != Some(&text) {
+                o.fail(json!({"clause": "C09 a candidate committed from the list a backspace returned is learned (after a restart)", "history": {"first_context": s.history(), "new_context": fresh.history()}, "observed": show(&a), "expected": text, "list_got_longer": longer}));
+            }
+            o.nontrivial += 1;
+        }
         crate::verif_driver::reset_user_files();
         o.done()
     }
@@ -989,6 +1057,20 @@ mod api {
         for d in ["{\"hello\":\"\u{09B8}\u{09BE}\u{09B2}\u{09BE}\u{09AE}\"}", "{\"hello\":\"sa\u{09B2}am\"}", "[1,2]", "{\"a\":1}", "null", "{\"a\":\"\",\"\":\"\"}", "{\":\":\"\"}", "\u{FEFF}{}", "{\"a\":{\"b\":\"c\"}}"] {
             docs.push(("phonetic-candidate-selection.json", d.as_bytes().to_vec()));
             docs.push(("autocorrect.json", d.as_bytes().to_vec()));
+        }
+        // other encodings of a JSON document: UTF-8 with a byte order mark, UTF-16 LE / BE with a byte order mark, cut at every byte
+        // (odd lengths included) -- content the parser cannot read is content that is not there
+        {
+            let doc = "{\"ami\":\"ammi\"}";
+            let le: Vec<u8> = [0xFFu8, 0xFE].iter().cloned().chain(doc.encode_utf16().flat_map(|u| u.to_le_bytes())).collect();
+            let be: Vec<u8> = [0xFEu8, 0xFF].iter().cloned().chain(doc.encode_utf16().flat_map(|u| u.to_be_bytes())).collect();
+            let u8bom: Vec<u8> = [0xEFu8, 0xBB, 0xBF].iter().cloned().chain(doc.bytes()).collect();
+            for enc in [&le, &be, &u8bom] {
+                for n in (0..=enc.len()).rev().take(if bound >= 2 { 1000 } else { 8 }) {
+                    docs.push(("autocorrect.json", enc[..n].to_vec()));
+                    if n % 5 == 0 { docs.push(("phonetic-candidate-selection.json", enc[..n].to_vec())); }
+                }
+            }
         }
         crate::verif_driver::reset_user_files();
         let reference = { let mut s = Sess::new(cfgv.clone()); texts(&s.typ("ami").unwrap()) };
@@ -1186,8 +1268,8 @@ mod api {
                 let r = std::panic::catch_unwind(std::panic::AssertUnwindSafe(|| { let a = s.typ(w).unwrap(); s.finish(); a }));
                 let b = fresh.typ(w).unwrap(); fresh.finish();
                 match r {
-                    Ok(a) => if !same(&a, &b) { o.fail(json!({"clause": format!("{} edited user auto-correct list is honoured for every word after update_engine (a damaged or removed file counts as absent)", if name == "damage" || name == "remove file" { "C10 C11" } else { "C11" }), "edit": name, "before": before, "after": after, "history": s.history(), "observed": show(&a), "expected": show(&b)})); },
-                    Err(_) => { o.fail(json!({"clause": format!("{} edited user auto-correct list is honoured for every word after update_engine (a damaged or removed file counts as absent)", if name == "damage" || name == "remove file" { "C10 C11" } else { "C11" }), "edit": name, "before": before, "after": after, "history": s.history(), "observed": "panic", "expected": show(&b)})); break; }
+                    Ok(a) => if !same(&a, &b) { o.fail(json!({"clause": format!("{} edited user auto-correct list is honoured for every word after update_engine (a damaged or removed file counts as absent)", if name == "damage" || name == "remove file" { "C10 C11 C07" } else { "C11 C07" }), "edit": name, "before": before, "after": after, "history": s.history(), "observed": show(&a), "expected": show(&b)})); },
+                    Err(_) => { o.fail(json!({"clause": format!("{} edited user auto-correct list is honoured for every word after update_engine (a damaged or removed file counts as absent)", if name == "damage" || name == "remove file" { "C10 C11 C07" } else { "C11 C07" }), "edit": name, "before": before, "after": after, "history": s.history(), "observed": "panic", "expected": show(&b)})); break; }
                 }
             }
             o.nontrivial += 1;
@@ -2082,6 +2164,27 @@ mod api {
                 o.nontrivial += 1;
             }
             o.sample(json!({"base": base, "direct": direct}));
+        }
+        // C08 soundness against the dictionary FILE (parsed here, not through the engine's loader): every Bengali candidate is a word of
+        // dictionary.json code point for code point (the 21 words spelled with a ZWNJ included), the transliteration, the converted
+        // auto-correct entry, or a suffix-built form of a dictionary word
+        {
+            let oracle = super::api::Oracle::new();
+            let ac_map: std::collections::BTreeMap<String, String> = serde_json::from_str(&std::fs::read_to_string(format!("{}/autocorrect.json", crate::verif_driver::data_dir())).unwrap()).unwrap();
+            for w in ["allah", "shah", "omrah", "bismillah", "allahr", "shaher", "omrahte", "inshaallah", "kotha", "kothagulo", "bisoy", "amar", "hotat", "rik"] {
+                o.cases += 1;
+                let mut s = Sess::new(cfgv.clone());
+                let sg = s.typ(w).unwrap(); s.finish();
+                let translit = parser.convert(w);
+                let acv = ac_map.get(w).map(|c| parser.convert(c));
+                for c in texts(&sg) {
+                    let bengali = c.chars().any(|x| ('\u{0980}'..='\u{09FF}').contains(&x));
+                    if !bengali || c == translit || Some(&c) == acv.as_ref() || dict.contains(&c) || oracle.maybe_suffix_built(w, &c) { continue; }
+                    o.fail(json!({"clause": "C08 every Bengali candidate is a word of dictionary.json, the transliteration, the auto-correct entry or a suffix-built form of a dictionary word", "history": s.history(), "observed": c, "code_points": c.chars().map(|x| format!("{:04X}", x as u32)).collect::<Vec<_>>()}));
+                    break;
+                }
+                o.nontrivial += 1;
+            }
         }
         // C01 (no blow-up): stacked suffix keys ("kor" + "er" x n, "ami" + "re" x n): the list never holds more than the direct
         // hits of the prefixes of the word, one auto-correct entry each, the transliteration and the emoji
